@@ -27,8 +27,10 @@ ANCHOR_FILES = [
 RULE = (
     "seeded random scenes (object type x 1-3 slices x 1-3 modes) x optimizer (sgd, sgd+momentum, adam, adamw; optionally a dataset optimizer) x scheduler "
     "(none/exp/linear/cyclic/plateau) x constraint dictionaries x split point k in 0..7 x continuation m in 1..4 x continuation style (plain, two calls, new "
-    "constraints, added probe optimizer, new scheduler); every case derives the twins zip, dir, clone, forced clone fallback and raw-data-free reload from the same "
-    "split state. non-trivial = k >= 1, m >= 2 and (stateful optimizer or a scheduler that changed the learning rate); distinct = (optimizer, scheduler, k, "
+    "constraints, added probe optimizer, new scheduler); every 'twins' case derives the twins zip, dir, clone, forced clone fallback and raw-data-free reload from the same "
+    "split state; 'history' cases checkpoint one run periodically: the same zip path and the same directory path (reused by all cases of a worker) are overwritten with "
+    "mode='o' at three successive split points, each followed by from_file (and clone() of the reloaded object), judged against the state at that split and continued "
+    "against the uninterrupted reference. non-trivial = k >= 1, m >= 2 and (stateful optimizer or a scheduler that changed the learning rate); distinct = (optimizer, scheduler, k, "
     "continuation style, dataset optimizer)"
 )
 ASSUMPTIONS = [
@@ -56,13 +58,23 @@ TOL_FREE = 1e-4
 
 
 def plan(tier, seed):
-    n = 112 if tier == "quick" else 1000
+    n = 96 if tier == "quick" else 840
+    nh = 28 if tier == "quick" else 240
     rng = np.random.default_rng([int(seed), 5, 777])
     specs = []
     for i in range(n):
-        specs.append({"opt": OPTIMIZERS[i % 4], "sched": SCHEDULERS[(i // 4) % 5], "k": int(rng.choice([0, 1, 1, 2, 2, 3, 3, 4, 5, 6, 7])), "style": STYLES[int(rng.integers(len(STYLES)))],
+        specs.append({"kind": "twins", "opt": OPTIMIZERS[i % 4], "sched": SCHEDULERS[(i // 4) % 5], "k": int(rng.choice([0, 1, 1, 2, 2, 3, 3, 4, 5, 6, 7])), "style": STYLES[int(rng.integers(len(STYLES)))],
                       "sync": bool(rng.random() < 0.8), "i": i})
-    return specs
+    hist = [{"kind": "history", "opt": OPTIMIZERS[(i + 1) % 4], "sched": SCHEDULERS[(i // 2) % 5], "k": int(rng.integers(0, 4)), "style": ["plain", "plain", "new_constraints", "new_scheduler"][int(rng.integers(4))], "i": i}
+            for i in range(nh)]
+    # interleave (one history case after every third twin case) so that every worker sees both kinds and the evidence samples show both
+    out = []
+    step = max(1, n // max(1, nh))
+    for i, sp in enumerate(specs):
+        out.append(sp)
+        if i % step == 1 and hist:
+            out.append(hist.pop(0))
+    return out + hist
 
 
 class _Shim:
@@ -338,7 +350,7 @@ def _continue(pt, calls, quiet):
             pt.reconstruct(**_cp(kw))
 
 
-def run_case(spec, idx, ctx):
+def _run_twins(spec, idx, ctx):
     st = ctx.state
     scenes, Pty, quiet = st["scenes"], st["Ptychography"], st["quiet"]
     rng = ctx.rng(idx)
@@ -485,6 +497,97 @@ def run_case(spec, idx, ctx):
                 iter_losses=ref_final["iter_losses"].tolist(), iter_lrs_object=lrs.tolist(), lr_changed=lr_changed, worst_continuation_residual=worst)
 
 
+def _run_history(spec, idx, ctx):
+    """periodic checkpointing: ONE zip path and ONE directory path (per worker, reused by every history case) are overwritten with mode="o" at
+    successive split points k1 < k2 < k3 of one run; after every save the file is loaded again, the reloaded object (and a clone of it) must report
+    the state at *its* split and, continued with the next call, reach the uninterrupted reference"""
+    import os
+
+    st = ctx.state
+    scenes, Pty, quiet = st["scenes"], st["Ptychography"], st["quiet"]
+    rng = ctx.rng(idx)
+    sc = scenes.make_scene(rng, gpts=(int(rng.integers(2, 5)), int(rng.integers(2, 5))), roi=(int(rng.integers(8, 13)), int(rng.integers(8, 13))),
+                           num_slices=int(rng.choice([1, 1, 2])), num_modes=int(rng.choice([1, 2, 3])), pad_req=(int(rng.integers(0, 5)), int(rng.integers(0, 5))))
+    I = scenes.simulate_scene(sc)
+    J = int(np.prod(sc.gpts))
+    dataset = bool(rng.random() < 0.25)
+    seed = int(rng.integers(1 << 30))
+    init = "uniform" if rng.random() < 0.7 else None
+    loss_type = ["l2_amplitude", "l2_amplitude", "l1_amplitude", "l2_intensity", "poisson"][int(rng.integers(5))]
+
+    def build():
+        return scenes.build_library(sc, I, seed=seed, obj_init=init, install_truth=False, learn_descan=dataset)
+
+    k1 = int(spec["k"]) % 4
+    op = _opt_params(rng, spec["opt"], dataset)
+    sp = _sched_params(rng, spec["sched"], list(op), k1)
+    cons = _constraints(rng, sc, dataset)
+    stages = [dict(num_iters=k1, reset=True, optimizer_params=op, scheduler_params=sp, constraints=cons, batch_size=J, loss_type=loss_type)]
+    for _ in range(3):
+        stages.append(dict(num_iters=int(rng.integers(1, 4)), batch_size=J, loss_type=loss_type))
+    if spec["style"] == "new_constraints":
+        stages[int(rng.integers(1, 4))]["constraints"] = {"object": {"tv_weight_xy": 3e-3}, "probe": {"center_probe": bool(rng.random() < 0.5)}}
+    elif spec["style"] == "new_scheduler":
+        stages[int(rng.integers(1, 4))]["scheduler_params"] = {"object": _sched_one(rng, SCHEDULERS[1 + int(rng.integers(4))])}
+    seeds = [None] + [int(rng.integers(1 << 30)) for _ in range(3)]
+    f0 = {"optimizer": spec["opt"], "scheduler": spec["sched"], "style": "history:" + spec["style"], "sync": "sync", "dataset_optimizer": dataset}
+
+    def stage(pt, j):
+        if seeds[j] is not None:
+            pt.rng = seeds[j]  # the same public call on the reference, the original and every twin (see ASSUMPTIONS)
+        _continue(pt, [stages[j]], quiet)
+
+    R = build()
+    Rs = []
+    for j in range(4):
+        stage(R, j)
+        Rs.append(_snap(R))
+    del R
+    A = build()
+    stage(A, 0)
+    pz = os.path.join(ctx.tmp, "c05_checkpoint.zip")
+    pd = os.path.join(ctx.tmp, "c05_checkpoint_dir")
+    worst = 0.0
+    splits = []
+    for j in range(3):
+        As = _snap(A)
+        splits.append(As["num_iters"])
+        _compare(ctx, Rs[j], As, TOL_SYNC, dict(f0, twin="original_after_save", phase="state", split=j))
+        with quiet():
+            A.save(pz, mode="o", store="zip", save_raw_data=True)
+            A.save(pd, mode="o", store="dir", save_raw_data=True)
+            twins = {"zip_overwritten": Pty.from_file(pz), "dir_overwritten": Pty.from_file(pd)}
+            src = "zip_overwritten" if (idx + j) % 2 == 0 else "dir_overwritten"
+            twins["clone_of_reloaded_" + src.split("_")[0]] = Pty.from_file(pz if src.startswith("zip") else pd).clone()
+        ctx.count("history_overwrites", 2 if j else 0)
+        for name, B in twins.items():
+            _compare(ctx, As, _snap(B), TOL_STATE, dict(f0, twin=name, phase="state", split=j))
+        for name, B in twins.items():
+            stage(B, j + 1)
+            worst = max(worst, _compare(ctx, Rs[j + 1], _snap(B), TOL_SYNC, dict(f0, twin=name, phase="continuation", split=j)))
+        sA = _snap(A)
+        ctx.check(_relmax(As["obj"], sA["obj"]) == 0.0 and _relmax(As["probe"], sA["probe"]) == 0.0 and sA["num_iters"] == As["num_iters"], "original_changed_by_twin",
+                  "continuing the reloaded / cloned objects changed the original", **dict(f0, twin="original", phase="continuation", split=j))
+        del twins
+        stage(A, j + 1)
+    worst = max(worst, _compare(ctx, Rs[3], _snap(A), TOL_SYNC, dict(f0, twin="original_after_save", phase="continuation", split=3)))
+    lrs = Rs[3]["iter_lrs"].get("object", np.zeros(0))
+    lr_changed = bool(len(lrs) > 1 and np.ptp(lrs[lrs > 0]) > 0) if len(lrs) and (lrs > 0).any() else False
+    finite = bool(np.isfinite(Rs[3]["iter_losses"]).all())
+    ctx.count("cases_nonfinite_history", int(not finite))
+    ctx.count("history_cases")
+    ctx.nontrivial(("history", spec["opt"], spec["sched"], k1, spec["style"], dataset), (spec["opt"] != "sgd" or lr_changed) and finite)
+    ctx.observe(scene=sc.describe(), kind="history", split_points=splits, stages=[s_["num_iters"] for s_ in stages], style=spec["style"], optimizer=op, scheduler=sp, constraints=cons, loss=loss_type,
+                dataset_optimizer=dataset, iter_losses=Rs[3]["iter_losses"].tolist(), iter_lrs_object=lrs.tolist(), lr_changed=lr_changed, worst_continuation_residual=worst)
+
+
+def run_case(spec, idx, ctx):
+    if spec.get("kind") == "history":
+        _run_history(spec, idx, ctx)
+    else:
+        _run_twins(spec, idx, ctx)
+
+
 def _suppress():
     import contextlib
 
@@ -494,6 +597,8 @@ def _suppress():
 def summarize(all_cases, counters, extras):
     return {
         "fallback_clone_forced": int(counters.get("fallback_forced", 0)),
+        "history_cases": int(counters.get("history_cases", 0)),
+        "checkpoint_overwrites_followed_by_reload": int(counters.get("history_overwrites", 0)),
         "saves": int(counters.get("hook:Ptychography.save", 0)),
         "loads": int(counters.get("hook:Ptychography.from_file", 0)),
         "clones": int(counters.get("hook:Ptychography.clone", 0)),
